@@ -13,9 +13,9 @@ def visibleDict (dict : Bytes) (pl : Placement) : List UInt8 :=
   | .contiguous => if dict.size ≥ 65536 - 1 then dict.toList.drop (dict.size - 65536) else dict.toList
   | .external => dict.toList
 
-theorem usingDict_wf2 (fastLoop : Bool) (src dict dst : Bytes) (pl : Placement) :
-    WF2 (usingDictEnv fastLoop false src dict pl) (((if (usingDictEnv fastLoop false src dict pl).dst0 = 0 then #[] else dict) ++ dst).size) := by
-  refine ⟨LZ4V.C02.usingDictEnv_wf fastLoop false src dict dst pl, ?_, ?_⟩
+theorem usingDict_wf2 (fastLoop partialD : Bool) (src dict dst : Bytes) (pl : Placement) :
+    WF2 (usingDictEnv fastLoop partialD src dict pl) (((if (usingDictEnv fastLoop partialD src dict pl).dst0 = 0 then #[] else dict) ++ dst).size) := by
+  refine ⟨LZ4V.C02.usingDictEnv_wf fastLoop partialD src dict dst pl, ?_⟩
   · unfold usingDictEnv
     by_cases h0 : dict.size = 0
     · simp only [h0, if_true]; intro h; cases h
@@ -26,15 +26,18 @@ theorem usingDict_wf2 (fastLoop : Bool) (src dict dst : Bytes) (pl : Placement) 
         · simp only [h64, if_true]; intro _; omega
         · simp only [h64, if_false]; intro h; cases h
       | external => intro h; cases h
-  · unfold usingDictEnv
-    by_cases h0 : dict.size = 0
-    · simp only [h0, if_true]
-    · simp only [h0, if_false]
-      cases pl with
-      | contiguous => by_cases h64 : dict.size ≥ 65536 - 1 <;> simp only [h64, if_true, if_false]
-      | external => rfl
 
 theorem usingDictEnv_src (fastLoop partialD : Bool) (src dict : Bytes) (pl : Placement) : (usingDictEnv fastLoop partialD src dict pl).src = src := by
+  unfold usingDictEnv
+  by_cases h0 : dict.size = 0
+  · simp only [h0, if_true]
+  · simp only [h0, if_false]
+    cases pl with
+    | contiguous => by_cases h64 : dict.size ≥ 65536 - 1 <;> simp only [h64, if_true, if_false]
+    | external => rfl
+
+theorem usingDictEnv_partial (fastLoop partialD : Bool) (src dict : Bytes) (pl : Placement) :
+    (usingDictEnv fastLoop partialD src dict pl).partialD = partialD := by
   unfold usingDictEnv
   by_cases h0 : dict.size = 0
   · simp only [h0, if_true]
@@ -54,8 +57,8 @@ theorem extract_append_dict (dict dst : Bytes) (a : Nat) :
   · rw [if_neg (by simpa using h)]
     rw [Array.getElem?_eq_none (by omega)]
 
-theorem histOf_usingDict (fastLoop : Bool) (src dict dst : Bytes) (pl : Placement) :
-    histOf (usingDictEnv fastLoop false src dict pl) ((if (usingDictEnv fastLoop false src dict pl).dst0 = 0 then #[] else dict) ++ dst) =
+theorem histOf_usingDict (fastLoop partialD : Bool) (src dict dst : Bytes) (pl : Placement) :
+    histOf (usingDictEnv fastLoop partialD src dict pl) ((if (usingDictEnv fastLoop partialD src dict pl).dst0 = 0 then #[] else dict) ++ dst) =
       visibleDict dict pl := by
   unfold histOf usingDictEnv visibleDict
   by_cases h0 : dict.size = 0
@@ -103,7 +106,7 @@ theorem decompress_safe_usingDict_conv (fastLoop : Bool) (src dstInit dict : Byt
     decode dict.toList src.toList = some (r.buf.toList.take r.ret.toNat) ∨ (∃ f, HasZero f src.toList) := by
   unfold decompress_safe_usingDict at h
   dsimp only at h
-  have hw2 := usingDict_wf2 fastLoop src dict dstInit pl
+  have hw2 := usingDict_wf2 fastLoop false src dict dstInit pl
   have hps := LZ4V.C02.usingDictEnv_prefix_size fastLoop false src dict pl
   cases hg : generic (usingDictEnv fastLoop false src dict pl) ((if (usingDictEnv fastLoop false src dict pl).dst0 = 0 then #[] else dict) ++ dstInit) with
   | error e => rw [hg] at h; cases h
@@ -117,7 +120,7 @@ theorem decompress_safe_usingDict_conv (fastLoop : Bool) (src dstInit dict : Byt
     rw [hg] at hr'
     simp only [Except.ok.injEq] at hr'
     subst hr'
-    rcases generic_conv _ _ hw2 r0 hg hret with hc | hz
+    rcases generic_conv _ _ hw2 (usingDictEnv_partial fastLoop false src dict pl) r0 hg hret with hc | hz
     · left
       rw [histOf_usingDict, hsrc] at hc
       obtain ⟨pre, hpre⟩ := visibleDict_suffix dict pl
@@ -129,59 +132,94 @@ theorem decompress_safe_usingDict_conv (fastLoop : Bool) (src dstInit dict : Byt
       rw [hsrc] at hz
       exact hz
 
+/-- the decoder run behind both `_usingDict` entry points, on a format-valid block (`cap` = the part of `dst` handed to the decoder) -/
+theorem usingDict_generic_fwd (fastLoop partialD : Bool) (blk : List UInt8) (dst dict : Bytes) (pl : Placement) (D : List UInt8)
+    (seqs : List Seq) (last : List UInt8) (hdec : decode (visibleDict dict pl) blk = some D) (hparse : parse blk = some (seqs, last))
+    (hend : endConditions seqs last = true) (hroom : partialD = true ∨ D.length ≤ dst.size) (hcap : 0 < dst.size) :
+    ∃ r, generic (usingDictEnv fastLoop partialD blk.toArray dict pl)
+            ((if (usingDictEnv fastLoop partialD blk.toArray dict pl).dst0 = 0 then #[] else dict) ++ dst) = .ok r ∧
+      0 ≤ r.ret ∧ r.ret.toNat ≤ dst.size ∧
+      r.buf.size = (usingDictEnv fastLoop partialD blk.toArray dict pl).dst0 + dst.size ∧
+      (r.buf.extract (usingDictEnv fastLoop partialD blk.toArray dict pl).dst0 r.buf.size).toList.take r.ret.toNat = D.take r.ret.toNat ∧
+      (r.ret.toNat = D.length ∨ (partialD = true ∧ r.ret.toNat = dst.size ∧ dst.size ≤ D.length)) := by
+  have hw2 := usingDict_wf2 fastLoop partialD blk.toArray dict dst pl
+  have hps := LZ4V.C02.usingDictEnv_prefix_size fastLoop partialD blk.toArray dict pl
+  have hsrc := usingDictEnv_src fastLoop partialD blk.toArray dict pl
+  have hpd := usingDictEnv_partial fastLoop partialD blk.toArray dict pl
+  have hh := histOf_usingDict fastLoop partialD blk.toArray dict dst pl
+  have hbs : ((if (usingDictEnv fastLoop partialD blk.toArray dict pl).dst0 = 0 then #[] else dict) ++ dst).size =
+      (usingDictEnv fastLoop partialD blk.toArray dict pl).dst0 + dst.size := by rw [Array.size_append, hps]
+  obtain ⟨fin, hda, hdrop, hfl, hvt⟩ := valid_block_vtail (usingDictEnv fastLoop partialD blk.toArray dict pl)
+    (((if (usingDictEnv fastLoop partialD blk.toArray dict pl).dst0 = 0 then #[] else dict) ++ dst).size) (visibleDict dict pl) blk D seqs last
+    (usingDictEnv fastLoop partialD blk.toArray dict pl).dst0 hdec hparse hend (by
+      rw [hpd, hbs]
+      rcases hroom with h | h
+      · exact Or.inl h
+      · right; omega)
+  obtain ⟨r, h1, h2, h3, h4, h5, h6⟩ := generic_fwd (usingDictEnv fastLoop partialD blk.toArray dict pl) _ hw2
+    (by rw [hbs]; omega) (blk.length + 1) fin (by rw [hh, hsrc]; simpa using hvt) (by rw [hh, hsrc]; simpa using hda)
+  rw [hh] at h5 h6
+  rw [hdrop] at h5
+  rw [hbs] at h3 h4
+  rw [hpd, hbs] at h6
+  refine ⟨r, h1, h2, by omega, h3, ?_, ?_⟩
+  · have := dst_part (if (usingDictEnv fastLoop partialD blk.toArray dict pl).dst0 = 0 then #[] else dict) dst r.buf r.ret.toNat
+      (by rw [hps, h3]; omega)
+    rw [hps] at this
+    rw [this, h5]
+  · rcases h6 with h6 | ⟨hp, h6, h7⟩
+    · left; omega
+    · right; exact ⟨hp, by omega, by omega⟩
+
 /-- **`LZ4_decompress_safe_usingDict`, forward**: a block that is valid under the format document (the specification decodes it against
     the visible dictionary, end-of-block rules hold) is decoded to exactly its content, for any capacity that holds it -/
 theorem decompress_safe_usingDict_fwd (fastLoop : Bool) (blk : List UInt8) (dstInit dict : Bytes) (pl : Placement) (D : List UInt8)
     (seqs : List Seq) (last : List UInt8) (hdec : decode (visibleDict dict pl) blk = some D) (hparse : parse blk = some (seqs, last))
     (hend : endConditions seqs last = true) (hroom : D.length ≤ dstInit.size) (hcap : 0 < dstInit.size) :
     ∃ r, decompress_safe_usingDict fastLoop blk.toArray dstInit dict pl = .ok r ∧ r.ret = D.length ∧ r.buf.toList.take D.length = D := by
-  have hw2 := usingDict_wf2 fastLoop blk.toArray dict dstInit pl
-  have hps := LZ4V.C02.usingDictEnv_prefix_size fastLoop false blk.toArray dict pl
-  have hsrc := usingDictEnv_src fastLoop false blk.toArray dict pl
-  have hh := histOf_usingDict fastLoop blk.toArray dict dstInit pl
-  unfold decode at hdec
-  cases hda : decodeAux (blk.length + 1) blk (visibleDict dict pl) with
-  | none => rw [hda] at hdec; cases hdec
-  | some fin =>
-    rw [hda] at hdec
-    simp only [Option.map_some, Option.some.injEq] at hdec
-    have hexec : exec (visibleDict dict pl) seqs last = some fin := by
-      have := decodeAux_eq_parse_exec (blk.length + 1) blk (visibleDict dict pl)
-      unfold parse at hparse
-      rw [hparse, hda] at this
-      exact this.symm
-    have hfl : fin.length = (visibleDict dict pl).length + D.length := by
-      have := exec_length_ge seqs (visibleDict dict pl) last fin hexec
-      rw [← hdec, List.length_drop]; omega
-    have hvt := vtail_of_valid (((if (usingDictEnv fastLoop false blk.toArray dict pl).dst0 = 0 then #[] else dict) ++ dstInit).size)
-      (blk.length + 1) blk (visibleDict dict pl) seqs last fin (usingDictEnv fastLoop false blk.toArray dict pl).dst0 hparse hexec
-      (EC_of_endConditions seqs last hend) (by simp only [Array.size_append]; omega)
-    obtain ⟨r, outf, h1, h2, h3, h4, h5⟩ := generic_fwd (usingDictEnv fastLoop false blk.toArray dict pl) _ hw2
-      (by simp only [Array.size_append]; omega) (blk.length + 1) (by rw [hh, hsrc]; simpa using hvt)
-    rw [hh, hsrc] at h2
-    rw [hh] at h5
-    rw [hda] at h2
-    simp only [Option.some.injEq] at h2
-    subst h2
-    rw [hdec] at h5
-    unfold decompress_safe_usingDict
-    dsimp only
+  obtain ⟨r, h1, h2, h3, h4, h5, h6⟩ := usingDict_generic_fwd fastLoop false blk dstInit dict pl D seqs last hdec hparse hend (Or.inr hroom) hcap
+  unfold decompress_safe_usingDict
+  dsimp only
+  rw [h1]
+  have hlen : r.ret.toNat = D.length := by
+    rcases h6 with h6 | ⟨hp, _⟩
+    · exact h6
+    · cases hp
+  refine ⟨_, rfl, by dsimp only; omega, ?_⟩
+  dsimp only
+  rw [← hlen, h5, hlen, List.take_length]
+
+/-- **`LZ4_decompress_safe_partial_usingDict`, forward** (C16 with a dictionary) -/
+theorem decompress_safe_partial_usingDict_fwd (fastLoop : Bool) (blk : List UInt8) (dstInit dict : Bytes) (pl : Placement) (target : Nat)
+    (D : List UInt8) (seqs : List Seq) (last : List UInt8) (hdec : decode (visibleDict dict pl) blk = some D)
+    (hparse : parse blk = some (seqs, last)) (hend : endConditions seqs last = true) (hroom : min target D.length ≤ dstInit.size) :
+    ∃ r, decompress_safe_partial_usingDict fastLoop blk.toArray dstInit dict pl target = .ok r ∧ r.ret = (min target D.length : Nat) ∧
+      r.buf.toList.take (min target D.length) = D.take (min target D.length) := by
+  unfold decompress_safe_partial_usingDict
+  dsimp only
+  have hcsz : (dstInit.extract 0 (min target dstInit.size)).size = min target dstInit.size := by simp
+  by_cases hc0 : min target dstInit.size = 0
+  · have hg : generic (usingDictEnv fastLoop true blk.toArray dict pl)
+        ((if (usingDictEnv fastLoop true blk.toArray dict pl).dst0 = 0 then #[] else dict) ++ dstInit.extract 0 (min target dstInit.size)) =
+        .ok ⟨0, (if (usingDictEnv fastLoop true blk.toArray dict pl).dst0 = 0 then #[] else dict) ++ dstInit.extract 0 (min target dstInit.size)⟩ := by
+      have hps := LZ4V.C02.usingDictEnv_prefix_size fastLoop true blk.toArray dict pl
+      unfold generic
+      dsimp only
+      rw [if_pos (by rw [Array.size_append, hps, hcsz]; omega), usingDictEnv_partial]
+      rfl
+    rw [hg]
+    have hm0 : min target D.length = 0 := by omega
+    exact ⟨_, rfl, by dsimp only; omega, by rw [hm0]; simp⟩
+  · obtain ⟨r, h1, h2, h3, h4, h5, h6⟩ := usingDict_generic_fwd fastLoop true blk (dstInit.extract 0 (min target dstInit.size)) dict pl D seqs last
+      hdec hparse hend (Or.inl rfl) (by rw [hcsz]; omega)
     rw [h1]
-    obtain ⟨r', hr', hr2, hr3⟩ := generic_total _ _ hw2.wf
-    rw [h1] at hr'
-    simp only [Except.ok.injEq] at hr'
-    subst hr'
-    have hlen : D.length = r.ret.toNat := by
-      have := congrArg List.length h5
-      simp only [Array.length_toList, Array.size_extract] at this
-      simp only [Array.size_append] at hr3 h4
-      omega
+    rw [hcsz] at h3 h4 h6
+    have hret : r.ret.toNat = min target D.length := by
+      rcases h6 with h6 | ⟨_, h6, h7⟩
+      · omega
+      · omega
     refine ⟨_, rfl, by dsimp only; omega, ?_⟩
     dsimp only
-    have hfinal := dst_part (if (usingDictEnv fastLoop false blk.toArray dict pl).dst0 = 0 then #[] else dict) dstInit r.buf r.ret.toNat
-      (by rw [h4]; simp only [Array.size_append] at hr3 ⊢; omega)
-    rw [hps] at hfinal
-    rw [hlen, hfinal]
-    exact h5.symm
+    rw [← hret, Array.toList_append, List.take_append_of_le_length (by simp only [Array.length_toList, Array.size_extract]; omega), h5]
 
 end LZ4V.C05
